@@ -12,7 +12,7 @@ out = ROOT / 'translate' / 'pinned_gen'
 out.mkdir(exist_ok=True)
 index = {}
 for m in pkgutil.iter_modules(translate.__path__):
-    if m.name in ('pyexpr', 'normalize'):
+    if m.name in ('pyexpr', 'normalize', 'renames'):
         continue
     files, _ = importlib.import_module('translate.' + m.name).translate(repo)
     index[m.name] = sorted(files)
